@@ -203,6 +203,14 @@ func runCase(spec gen10.ClusterSpec, entry string, nbrs []nbrSpec) (o outcome) {
 	bt := gen10.Build(spec)
 	defer bt.Cancel()
 	menv := buildMenv(bt, entry, nbrs)
+	// differential check of every store predicate read back from the real objects against the independent oracle
+	for _, d := range bt.PredicateDiffs() {
+		sig := "C10:store-predicate-misjudged:" + d[0]
+		if d[0] == "reject-leader" {
+			sig = "C10:reject-leader-property-misjudged"
+		}
+		o.viol = append(o.viol, res.Violation{Sig: sig, Desc: d[1], Replay: map[string]interface{}{"Spec": spec, "Entry": entry, "Nbrs": nbrs}})
+	}
 	var op *operator.Operator
 	rules := bt.TC.GetOpts().IsPlacementRulesEnabled()
 	coqEntry := "EReplica"
